@@ -341,6 +341,7 @@ void cell(const char* pair_name, int n)
         const int64_t cno = g_case++;
         if (cno < g_from || cno >= g_to || g_bailed) return;
         emit(J().kv("t", "case_begin").kv("case", cno).str());
+        arm_case_watchdog(40);
         out().viol_in_case = 0;
         set_ctx(cno, 0, "emplace_back", FIXED ? "FixedSize" : "VaryingSize", "C15,C02,C06", name.c_str());
         ledger().junk = static_cast<int>(cno % 4);
